@@ -6,7 +6,9 @@ from checks import gen_pipeline
 def run(tier):
     chk = vlib.Check("C09", tier)
     res = gen_pipeline.run(tier, chk.seed)
-    gen_pipeline.apply(chk, res, ["C09", "C09L"])
+    gen_pipeline.apply(chk, res, ["C09", "C09L", "C09W"])
+    if res["stats"].get("with_listing", 0) < 50:
+        raise ToolError("C09 vacuity guard: only %d accepted generators with a logged condition listing" % res["stats"].get("with_listing", 0))
     if res["stats"]["with_trusted"] < 100:
         raise ToolError("C09 vacuity guard: only %d accepted generators with trusted helper outputs" % res["stats"]["with_trusted"])
     try:
@@ -16,7 +18,7 @@ def run(tier):
     except ImportError:
         pass
     chk.rule = ("for every generator accepted by run_block_generator2 in the C07 streams: additions_and_removals, get_coinspends_for_trusted_block (+ rebuilt generator "
-                "re-validated), get_coinspends_with_conditions_for_trusted_block and get_puzzle_and_solution_for_coin for removed coins and a non-member are compared by TLC "
+                "re-validated), get_coinspends_with_conditions_for_trusted_block (coins in order; its raw condition listing must contain exactly the validated created coins and AGG_SIG_ME conditions of each spend) and get_puzzle_and_solution_for_coin for removed coins and a non-member are compared by TLC "
                 "with the trusted view derived from the validated conditions (removals as a sequence, additions as a multiset of (coin, hint) with the validation hint rule)")
     chk.assumptions = ["CLVM execution results are oracle inputs", "a known finding on spends with extension data can mask other lookup defects in the same event"]
     chk.extra["exhaustive"] = False
